@@ -219,6 +219,26 @@ def check_placeholder_replay():
     return out
 
 
+BACKSLASHED = ["sweet\\nsour", "mix\\\\fold", "salt\\pepper", "a\\1b", "\\g<0>x", "50% \\& more", "tab\\there"]
+
+
+def check_markdown_text(name):
+    """a name (written quoted, so every character is literal except the backslash escapes of the recipe syntax) shown through compile_markdown().render()"""
+    out = []
+    quoted = '"' + name.replace("\\", "\\\\").replace('"', '\\"') + '"'
+    doc = "# T for 2\n\nProse {2 %s}.\n\n    1 kg %s\n    out = fry(%s), serve\n    eat(1/2 of out, rest of out)\n" % (
+        name.replace("\\", "\\\\").replace("{", "").replace("}", ""), quoted, quoted)
+    try:
+        html = M.compile_markdown(doc).render(2)
+    except Exception as e:  # noqa
+        return [("C10:text-breaks-rendering:%s" % type(e).__name__, "%r: %s" % (name, str(e)[:120]))]
+    root, problems = htmltok.tree(html)
+    cells = [n.text() for n in root.iter() if n.tag == "td" and "rg-ingredient" in n.classes()]
+    if not cells or name not in cells[0]:
+        out.append(("C10:visible-text-differs", "ingredient %r shown as %r through the Markdown front end" % (name, cells[:1])))
+    return out
+
+
 def correspondence(run):
     cases = gen_cases(run, run.budget(1200, 20000))
     rep = run.ask([sexp.tag("html", sexp.s(pre), rsexp.tree(t)) for t, pre in cases])
@@ -235,6 +255,10 @@ def oracle(run):
         run.case(("oracle", rsexp.tree(t), pre), True)
         for sig, detail in check_tree(t, pre):
             run.violate(sig, detail, {"tree": rsexp.tree(t), "prefix": pre})
+    for name in BACKSLASHED + NASTY[:8]:
+        run.case(("markdown-text", name), True, kind="markdown-text")
+        for sig, detail in check_markdown_text(name):
+            run.violate(sig, detail, {"markdown_text": name})
     run.case(("placeholder-replay",), True, kind="placeholder-replay")
     for sig, detail in check_placeholder_replay():
         run.violate(sig, detail, {"placeholder_replay": True})
@@ -251,7 +275,9 @@ def oracle(run):
 
 def replay(run, obj):
     r = obj["replay"]
-    if "placeholder_replay" in r:
+    if "markdown_text" in r:
+        res = check_markdown_text(r["markdown_text"])
+    elif "placeholder_replay" in r:
         res = check_placeholder_replay()
     elif "title" in r:
         res = check_title(r["title"])
